@@ -352,7 +352,12 @@ def run_handover(chk, consts):
                     else:
                         if ("mark", act[1]) not in w.events:
                             continue
-                        w.resubmit_stage(act[1])
+                        try:
+                            w.resubmit_stage(act[1])
+                        except Exception as e:
+                            chk.tie_broken("hand-over: resubmitting stage %d could not be driven (%s)" % (act[1], type(e).__name__),
+                                           json.dumps({"scenario": [n, autos, script], "events": list(w.events)}, default=str)[:1500])
+                            break
                         sys_ops.append(f"(SysResubmit {drv.cZ(act[1])})")
                         dist["resubmissions"] += 1
                 exp = f"(Some ({drv.obs_term(w.read_state())}, {drv.events_term(w.events)}))"
@@ -367,6 +372,42 @@ def run_handover(chk, consts):
                                               "final_pipeline_json": w.read_state(), "detail": detail})
                 if dist["scenarios"] == 9:
                     chk.sample({"kind": "handover", "stages": n, "script": script, "events": list(w.events)})
+        finally:
+            shutil.rmtree(root, ignore_errors=True)
+    # local mode: every stage runs to completion inside run_submit_jobs, so the hand-over to stage k+1 happens nested
+    # inside PipelineManager._submit_next_stage of stage k (one process, stale in-memory pipeline state in the outer frames)
+    chains = [(n, autos, dict(G)) for n in (1, 2, 3, 4) for autos in ([True] * n, [False] * n)]
+    chains += [(3, [False, True, False], dict(G, auto="ret")), (4, [False, False, True, True], dict(G, auto="nofile")),
+               (2, [True, True], dict(G, cfg=False))]
+    for _ in range(4 if chk.tier == "quick" else 60):
+        n = rng.choice([2, 3, 4])
+        chains.append((n, rand_autos(rng, n), rand_env(rng, 0.3)))
+    for n, autos, env in chains:
+        env = dict(env, ret=0)
+        root = tempfile.mkdtemp(prefix="verif_c15l_")
+        try:
+            with drv.PipelineWorld(root, handover=True, with_teardown=True, local_chain=True) as w:
+                w.do(("submit", autos, env))
+                sys_ops = [f"(SysStart [{'; '.join('true' if a else 'false' for a in autos)}] {drv.env_term(env)})"]
+                crashed = [c for c in w.chain_results if not isinstance(c[1], int)]
+                if crashed:
+                    chk.tie_broken("hand-over (local chain): _handle_completion raised", json.dumps({"chain": [n, autos, env], "raised": crashed}))
+                    continue
+                for k, out in sorted(w.chain_results):
+                    sys_ops.append(f"(SysComplete {drv.cZ(k)} {drv.cZ(out)} {drv.env_term(env)})")
+                exp = f"(Some ({drv.obs_term(w.read_state())}, {drv.events_term(w.events)}))"
+                meta = {"local_chain": True, "n": n, "autos": autos, "env": env, "events": list(w.events), "final": w.read_state()}
+                cmp_.add("[" + "; ".join(sys_ops) + "]", exp, meta)
+                chk.count(("chain", n, tuple(autos), json.dumps(env)), nontrivial=True)
+                dist["local_chains"] = dist.get("local_chains", 0) + 1
+                problems = oracle_handover(w, n)
+                st = w.read_state()
+                if env["auto"] == "ok" and env["cfg"] and not (st and st[2] and [e[1] for e in w.events if e[0] == "submit"] == list(range(1, n + 1))):
+                    problems.append(("local-chain-incomplete", f"local pipeline of {n} stages did not run all stages to completion: {st}", {}))
+                for sig, what, detail in problems:
+                    chk.violation(sig, what, {"component": "local pipeline: run_submit_jobs -> _handle_completion -> submit-next-stage (nested)",
+                                              "stages": n, "autos": autos, "env": env, "events": list(w.events),
+                                              "final_pipeline_json": st, "detail": detail})
         finally:
             shutil.rmtree(root, ignore_errors=True)
     bad = cmp_.run()
